@@ -323,3 +323,69 @@ Lemma example_ok :
   /\ array_len (CLocal false (Some (COther false))) = Ok NotConst
   /\ comptime_arg (CGlobal true true (CLit (LInt 3))) = Ok NotConst.
 Proof. repeat split; vm_compute; reflexivity. Qed.
+
+(* ---- multi-file worlds ----------------------------------------------------------------- *)
+Lemma const_data_w_denotes w : forall fuel cur e n,
+  const_data_w w fuel cur e = Ok (Some (DInt n)) -> denotes_w w cur e n.
+Proof.
+  induction fuel as [|f IH]; intros cur e n H; [discriminate|].
+  destruct e as [k|g|fl g|mu [v|]|s r|d|t]; cbn [const_data_w] in H.
+  - inversion H; subst. constructor.
+  - destruct (w cur g) as [gd|] eqn:E; [|discriminate].
+    destruct (wg_extern gd); [discriminate|]. econstructor; [exact E|]. apply IH. exact H.
+  - destruct (w fl g) as [gd|] eqn:E; [|discriminate].
+    destruct (wg_extern gd); [discriminate|]. econstructor; [exact E|]. apply IH. exact H.
+  - constructor. apply IH. exact H.
+  - discriminate.
+  - destruct s; inversion H; subst. constructor.
+  - inversion H; subst. constructor.
+  - destruct t; discriminate.
+Qed.
+
+Lemma consume_w_accepted_int w site wi fuel cur e n :
+  consume_w w site wi fuel cur e = Ok (Accepted (DInt n)) -> denotes_w w cur e n.
+Proof.
+  unfold consume_w. destruct (get_const_w w fuel [(cur, e)]) as [v| |]; cbn [bind]; try discriminate.
+  destruct v; try discriminate.
+  destruct (const_data_w w fuel cur e) as [[d|]| |] eqn:Ed; cbn [bind]; try discriminate.
+  destruct d; [intros H; inversion H; subst; apply (const_data_w_denotes w fuel); exact Ed
+              | | | ]; destruct wi; discriminate.
+Qed.
+
+Theorem world_accepted_array_len_denotes w fuel cur e n :
+  array_len_w w fuel cur e = Ok (Accepted (DInt n)) -> denotes_w w cur e n.
+Proof. apply consume_w_accepted_int. Qed.
+Theorem world_accepted_discriminant_denotes w fuel cur e n :
+  discriminant_w w fuel cur e = Ok (Accepted (DInt n)) -> denotes_w w cur e n.
+Proof. apply consume_w_accepted_int. Qed.
+Theorem world_accepted_comptime_arg_denotes w fuel cur e n :
+  comptime_arg_w w fuel cur e = Ok (Accepted (DInt n)) -> denotes_w w cur e n.
+Proof. apply consume_w_accepted_int. Qed.
+
+(* denotes_w is a function: the value is unique *)
+Lemma denotes_w_fun w : forall cur e n, denotes_w w cur e n -> forall m, denotes_w w cur e m -> n = m.
+Proof.
+  induction 1; intros m Hm; inversion Hm; subst; auto.
+  - rewrite H in *. match goal with X : Some _ = Some _ |- _ => inversion X; subst end. auto.
+  - rewrite H in *. match goal with X : Some _ = Some _ |- _ => inversion X; subst end. auto.
+Qed.
+
+(* Non-vacuity, and why the file matters: main (file 0) has size = 3; other (file 1) has size = 5
+   and buf_len :: size.  `other.buf_len` in main is 5; looking `size` up in main would give 3. *)
+Definition demo_world : world := fun f g =>
+  match f, g with
+  | 0%N, 7%N => Some (mkwg false true (WInt 3))          (* main.size *)
+  | 1%N, 7%N => Some (mkwg false true (WInt 5))          (* other.size *)
+  | 1%N, 8%N => Some (mkwg false true (WGlobal 7))       (* other.buf_len :: size *)
+  | _, _ => None
+  end.
+Lemma demo_world_ok :
+  array_len_w demo_world 10 0 (WMember 1 8) = Ok (Accepted (DInt 5))
+  /\ denotes_w demo_world 0 (WMember 1 8) 5
+  /\ ~ denotes_w demo_world 0 (WMember 1 8) 3.
+Proof.
+  split; [vm_compute; reflexivity|].
+  assert (D : denotes_w demo_world 0 (WMember 1 8) 5).
+  { eapply DW_member; [reflexivity|]. eapply DW_global; [reflexivity|]. constructor. }
+  split; [exact D|]. intros H. pose proof (denotes_w_fun _ _ _ _ D _ H). discriminate.
+Qed.
